@@ -344,6 +344,17 @@ def get_undefined_variables(source: str) -> Set[str]:
     defined_names = get_defined_names(root)
     referenced_names = _get_referenced_names(root)
 
+    # x += 1 reads x before it assigns it, that does not define x
+    augmented = {node.target for node in core.walk(root, ast.AugAssign(target=ast.Name))}
+    assigned_names = {
+        node.id for node in core.walk(root, ast.Name(ctx=ast.Store)) if node not in augmented
+    }
+    only_augmented_names = {node.id for node in augmented} - assigned_names
+    defined_names = defined_names - only_augmented_names | {
+        node.arg for node in core.walk(root, ast.arg)
+    }
+    referenced_names = referenced_names | {node.id for node in augmented}
+
     return (
         referenced_names
         - defined_names
